@@ -203,6 +203,8 @@ class Normaliser(object):
             s = ast.unparse(e)
             if s in ("np.pi", "numpy.pi", "math.pi"):
                 return "pi"
+            if s in self.rename:
+                return self.rename[s]
             return self.opaque(e.value) + "." + e.attr if not isinstance(e.value, ast.Name) else \
                 self.rename.get(e.value.id, e.value.id) + "." + e.attr
         if isinstance(e, ast.Name):
